@@ -25,7 +25,7 @@ def run(run):
                        env={'VERIF_LANG': lang, 'VERIF_DEPTH': 9, 'VERIF_MAXREJ': 0}, simulate=10 ** 9, depth=10,
                        max_cases=n, workers=8, timeout=400 if quick else 2400, name='random behaviours of depth 9 on %s' % lang)
     # models enumerated directly (accepted calls only, random walks): several links between several assets
-    for lang in ('LSame', 'LDup'):
+    for lang in ('LSame', 'LDup', 'LInh'):      # LInh: members several inheritance levels below the declared end
         run.gen_replay('Gen_Graph', 'Gen_Graph.cfg', A, {'langs': langs}, env={'VERIF_LANG': lang, 'VERIF_DEPTH': 8, 'VERIF_MAXASSETS': 4,
                                                                                  'VERIF_MAXASSOCS': 4}, simulate=10 ** 9, depth=9,
                        max_cases=4000 if quick else 60000, workers=8, timeout=300 if quick else 1800,
